@@ -28,13 +28,14 @@ var serverFaults = []string{
 	// session-rule-breaking servers
 	"accept-multi-field-messages", "accept-zero-election-id", "accept-unsupported-params", "accept-mismatched-params",
 	"leak-results-to-other-clients", "flush-on-new-primary", "fail-entries-with-metadata",
+	"report-own-election-id",
 }
 
 // strictFaults: every designated test in which the fault manifested must fail (not just one of them),
 // because each of those tests asks for exactly the data the fault withholds / checks exactly the verdict or
 // the session rule the fault breaks. (For the remaining faults the wrapper's "fired" counter also moves in
 // tests that do not depend on the withheld behaviour, so one failing designated test is required.)
-var strictFaults = map[string]bool{"allow-delete-referenced": true, "ack-invalid-entries": true, "accept-replace-of-missing": true, "accept-disallowed-forward-reference": true, "fail-mpls": true, "fail-ipv6": true, "fail-delete": true, "fail-cross-instance-reference": true, "accept-multi-field-messages": true, "accept-zero-election-id": true, "accept-unsupported-params": true, "accept-mismatched-params": true, "leak-results-to-other-clients": true, "flush-on-new-primary": true, "fail-entries-with-metadata": true, "get-omits-nh": true, "get-omits-nhg": true, "get-omits-ipv4": true, "get-omits-ipv6": true, "get-mislabels-ni": true}
+var strictFaults = map[string]bool{"report-own-election-id": true, "allow-delete-referenced": true, "ack-invalid-entries": true, "accept-replace-of-missing": true, "accept-disallowed-forward-reference": true, "fail-mpls": true, "fail-ipv6": true, "fail-delete": true, "fail-cross-instance-reference": true, "accept-multi-field-messages": true, "accept-zero-election-id": true, "accept-unsupported-params": true, "accept-mismatched-params": true, "leak-results-to-other-clients": true, "flush-on-new-primary": true, "fail-entries-with-metadata": true, "get-omits-nh": true, "get-omits-nhg": true, "get-omits-ipv4": true, "get-omits-ipv6": true, "get-mislabels-ni": true}
 
 // designated returns the predicate selecting the tests written for the requirement a fault breaks.
 func designated(fault string) func(name string) bool {
@@ -105,6 +106,9 @@ func designated(fault string) func(name string) bool {
 		return has("Active entries after new master connects")
 	case "fail-entries-with-metadata":
 		return has("Add Metadata for IPv4 entry", "Add IPv6 entry with metadata")
+	case "report-own-election-id":
+		// (only an announcement BELOW the highest id is answered wrongly)
+		return has("Election - Lower election ID", "Election - Decrementing election ID")
 	}
 	return func(string) bool { return false }
 }
@@ -252,6 +256,10 @@ func (f *faultyModify) Recv() (*spb.ModifyRequest, error) {
 				f.inject = append(f.inject, parts[1:]...)
 				return parts[0], nil
 			}
+		case "report-own-election-id":
+			if m.ElectionId != nil && m.Params == nil && len(m.Operation) == 0 {
+				f.lastElec = proto.Clone(m.ElectionId).(*spb.Uint128)
+			}
 		case "accept-zero-election-id":
 			if id := m.ElectionId; id != nil && id.High == 0 && id.Low == 0 && m.Params == nil && len(m.Operation) == 0 {
 				fired()
@@ -388,6 +396,14 @@ func (f *faultyModify) Send(r *spb.ModifyResponse) error {
 				}
 				c.Result = append(c.Result, res)
 			}
+			r = c
+		}
+	case "report-own-election-id":
+		// an election update is answered with the id the client itself announced, not with the highest one
+		if r.ElectionId != nil && f.lastElec != nil && !proto.Equal(r.ElectionId, f.lastElec) {
+			simrt.Active().Fault("srv-fault:" + f.fault)
+			c := proto.Clone(r).(*spb.ModifyResponse)
+			c.ElectionId = proto.Clone(f.lastElec).(*spb.Uint128)
 			r = c
 		}
 	case "misreport-election-id":
